@@ -267,6 +267,25 @@ def _stmt_assign(c, A, o, name, parent, key):
     else: parent[key] = x
 
 
+def _foreign(A):
+    """a tracked container that belongs to ANOTHER object's attribute (seq picks which): assigning it must store a copy bound to the
+    receiving object - otherwise later in-place changes notify the wrong object"""
+    other = J[2] if A.kind == 'json' and A.target_pk == 1 else J[1]
+    root = other.data
+    if A.kind != 'json': return None
+    s = A.seq
+    if isinstance(root, dict):
+        return root if s == 0 else root['a'] if s == 1 else root['b'] if s == 2 else root['a'][1]
+    return root if s == 0 else root[1] if s == 1 else root[2] if s == 2 else root[1]['b']
+
+
+def _stmt_assign_foreign(c, A, o, name, parent, key):
+    x = _foreign(A)
+    if x is None: return
+    if parent is None: _put(o, name, x)
+    else: parent[key] = x
+
+
 LIST_OPS = [
     ('append', lambda c, A: c.append(value(A))),
     ('insert', lambda c, A: c.insert(A.i, value(A))),
@@ -284,6 +303,7 @@ LIST_OPS = [
     ('stmt_iadd', _stmt_iadd),                                         # obj.attr += x   /  parent[key] += x
     ('stmt_imul', _stmt_imul),                                         # obj.attr *= n   /  parent[key] *= n
     ('stmt_assign', _stmt_assign),
+    ('stmt_assign_foreign', _stmt_assign_foreign),
 ]
 LIST_ALIAS_OPS = [
     ('iadd', lambda c, A: operator.iadd(c, iterable(A, c))),           # t = obj.attr[...]; t += x
@@ -312,6 +332,7 @@ DICT_OPS = [
     ('update_both', lambda c, A: c.update(mapping(A, c), z=value(A))),
     ('stmt_ior', _stmt_ior),                                           # obj.attr |= x   /  parent[key] |= x
     ('stmt_assign', _stmt_assign),
+    ('stmt_assign_foreign', _stmt_assign_foreign),
 ]
 DICT_ALIAS_OPS = [
     ('ior', lambda c, A: operator.ior(c, mapping(A, c))),              # t = obj.attr[...]; t |= x
@@ -392,6 +413,9 @@ NOT_OPERATIONS = {'__class_getitem__', '__init__', '__new__', '__init_subclass__
 
 # ---- the common body --------------------------------------------------------------------------------------------------
 
+NOTHING = object()
+
+
 def plain(x):
     if isinstance(x, dict): return {k: plain(v) for k, v in x.items()}
     if isinstance(x, (list, tuple)): return [plain(v) for v in x]
@@ -447,6 +471,7 @@ def mutate(target, table, op, A, state=0):
     from pony.orm import db_session, rollback, flush
     _fresh()
     A.kind = KIND[target]
+    A.target_pk = TARGETS[target][1]
     with db_session:
         try:
             o, attr, aname, root, c, parent, key = _load(target)
@@ -468,13 +493,17 @@ def mutate(target, table, op, A, state=0):
             elif not (o._wbits_ == 0 and o._status_ == 'loaded' and wrapped(root, o, attr)): return False, False
             before = strict(root)
             name, f = table[op]
+            ret = NOTHING
             try:
                 if name.startswith('stmt_'): f(c, A, o, aname, parent, key)
-                else: f(c, A)
+                else: ret = f(c, A)
             except Exception:
                 pass
             now = o._vals_[attr]
             w = wrapped(now, o, attr)
+            # rule I: setdefault hands out the STORED item (a change made through the returned value is a change of the document)
+            if name in ('setdefault', 'setdefault_v') and ret is not NOTHING and isinstance(ret, (list, dict)):
+                if not (KEYS[A.k] in c and ret is c[KEYS[A.k]]): w = False
             if strict(now) == before:
                 return True, w
             return (bool(o._wbits_ & o._bits_[attr]) and o._status_ == 'modified' and _queued(o)), w
